@@ -15,8 +15,15 @@ SqliteBad(e) == ~(e.sqlite.ran /\ e.sqlite.marker = 4242 /\ (e.pos = "alias" => 
 \* the front end refused the program for every dialect (the name collides with a standard-library member
 \* or a keyword of PRQL in that position): nothing was bound to anything, nothing to judge here
 Refused(e) == \A i \in 1 .. Len(e.dialects) : ~e.dialects[i].compiled
+\* the statement as the default options print it (format = true) carries the same identifier token; where it does not, the
+\* specification of the printer (PrinterKeepsIdent) says whether that is the printer's known way of reading quoted text
+\* ("printer", finding F124) or anything else ("format")
+FmtBadSet(e) == { i \in 1 .. Len(e.dialects) : e.dialects[i].compiled /\ ~e.dialects[i].fmt_same }
+FmtKind(e, i) == IF e.dialects[i].tok.quoted /\ ~PrinterKeepsIdent(e.name, e.dialects[i].tok.q) THEN "printer" ELSE "format"
+FmtReport(e) == \A i \in FmtBadSet(e) : PrintT(<<"FMT", e.id, FmtKind(e, i), e.dialects[i].d, ToJson(e.name.s), e.pos, l>>)
 Use ==
   /\ Consume /\ Ev.event = "Ident" /\ n' = n + 1
+  /\ FmtReport(Ev)
   /\ IF Refused(Ev) \/ (DOMAIN BadDialects(Ev) = {} /\ ~SqliteBad(Ev)) THEN UNCHANGED nrej
      ELSE nrej' = nrej + 1
           /\ PrintT(<<"REJECT", Ev.id, ToJson(BadDialects(Ev)), IF SqliteBad(Ev) THEN "sqlite-binding" ELSE "", ToJson(Ev.name.s), Ev.pos, l>>)
